@@ -242,6 +242,10 @@ class ShuffleReduce(Expr):
         if self.shuffle_by_index is not False:
             if is_series_like(self._meta) and is_series_like(self.frame._meta):
                 shuffled = shuffled[shuffled.columns[0]]
+                if self.frame._meta.name is None:
+                    # An unnamed Series travels through the shuffle under a
+                    # placeholder column label, restore the missing name
+                    shuffled = RenameSeries(shuffled, None)
             elif is_index_like(self._meta):
                 column = shuffled.columns[0]
                 divs = None if shuffled.divisions[0] is None else shuffled.divisions
